@@ -30,6 +30,14 @@ pub fn dispatch(op: &str, req: &Value) -> Result<Value, String> {
         return crate::ops_stateres::c08(k, req);
     }
     #[cfg(feature = "stateres")]
+    if op == "c06:separate" {
+        return crate::ops_stateres::separate(req);
+    }
+    #[cfg(feature = "stateres")]
+    if op == "c06:auth_diff" {
+        return crate::ops_stateres::auth_diff(req);
+    }
+    #[cfg(feature = "stateres")]
     if op == "c07:toposort" {
         return crate::ops_stateres::toposort(req);
     }
